@@ -139,7 +139,17 @@ def run_space(desc, tier, seed, res):
                 # map full of entries (each naming another type) as without one
                 res.hit("map_ignored_by_other_schemes")
                 try:
-                    with_map = command.from_frame(frame.ForwardFrame(24, v), dev_inst_map=BUSY_MAP())
+                    the_map = BUSY_MAP()
+                    if (h + d) % 2 and sl.get("instance_type") is not None:
+                        # ... or with a map that knows exactly one instance of the frame's type (at the frame's address, if
+                        # it carries one, and at another)
+                        from dali.device.helpers import DeviceInstanceTypeMapper
+                        the_map = DeviceInstanceTypeMapper()
+                        for a_ in {sl["short_address"] if sl.get("short_address") is not None else 7, 9}:
+                            the_map.add_type(short_address=a_, instance_number=(h + d) % 32, instance_type=sl["instance_type"])
+                            the_map.add_type(short_address=a_, instance_number=(h + d + 1) % 32, instance_type=(sl["instance_type"] + 1) % 32)
+                        res.hit("sparse_map_probes")
+                    with_map = command.from_frame(frame.ForwardFrame(24, v), dev_inst_map=the_map)
                     if type(with_map) is not type(ev) or str(with_map) != str(ev) or with_map.frame != ev.frame:
                         res.violation(f"C12/map-consulted/{sl['scheme']}", f"frame {v:#08x} ({sl['scheme']} scheme) decodes as {ev} without a map "
                                       f"and as {with_map} with one; only device/instance frames depend on the map", {"frame": v})
